@@ -6,15 +6,32 @@ namespace Flow
 
 def NoUnkRes (r : Res) : Prop := Atom.unknown ∉ r.intoType
 
-/-- every query at a node is sound for the current environment (all three modes) -/
-def SoundSt (ρ : Env) (s : St) : Prop := ∀ x m, (s.get x m).has (ρ.get x) = true
+/-- every query at a node is sound for the current environment (all three modes), for every variable outside
+the excluded set `W` -/
+def SoundSt (W : Nat → Bool) (ρ : Env) (s : St) : Prop :=
+  ∀ x, W x = false → ∀ m, (s.get x m).has (ρ.get x) = true
 
 /-- `IgnoreConditions` results never contain `unknown` (static) -/
 def WfSt (s : St) : Prop := ∀ x, NoUnkRes (s.get x .ignore)
 
-def SoundPt (ρ : Env) : Pt → Prop
-  | .node s => SoundSt ρ s
-  | .label ins => ∃ s ∈ ins, SoundSt ρ s
+def SoundPt (W : Nat → Bool) (ρ : Env) : Pt → Prop
+  | .node s => SoundSt W ρ s
+  | .label ins => ∃ s ∈ ins, SoundSt W ρ s
+
+/-- the strings held by the preamble locals `t_x = type(v_x)` used in guards still describe `v_x` -/
+def StoredOK (S : List (Nat × TName)) (ρ : Env) : Prop := ∀ p ∈ S, (ρ.get p.1).typeName = p.2
+
+def Leaf.storedIn (S : List (Nat × TName)) : Leaf → Bool
+  | .stored x tn0 _ _ => S.contains (x, tn0)
+  | _ => true
+
+def Cond.storedIn (S : List (Nat × TName)) : Cond → Bool
+  | .leaf l => l.storedIn S
+  | .not c => c.storedIn S
+  | .and a b => a.storedIn S && b.storedIn S
+  | .or a b => a.storedIn S && b.storedIn S
+
+variable {W : Nat → Bool} {S : List (Nat × TName)}
 
 def WfPt : Pt → Prop
   | .node s => WfSt s
@@ -51,19 +68,19 @@ theorem foldl_union_noUnk {ins : List St} {x : Nat} {m : Mode} :
     · exact unionTy_noUnk h (hall s (by simp))
     · intro s' hs'; exact hall s' (by simp [hs'])
 
-theorem res_has {ρ : Env} {p : Pt} (h : SoundPt ρ p) (x : Nat) (m : Mode) : (p.res x m).has (ρ.get x) = true := by
+theorem res_has {ρ : Env} {p : Pt} (h : SoundPt W ρ p) (x : Nat) (hx : W x = false) (m : Mode) : (p.res x m).has (ρ.get x) = true := by
   cases p with
-  | node s => exact h x m
+  | node s => exact h x hx m
   | label ins =>
     obtain ⟨s, hs, hsound⟩ := h
     match ins, hs with
     | [s0], hs =>
       simp only [List.mem_cons, List.not_mem_nil, or_false] at hs
       subst hs
-      exact hsound x m
+      exact hsound x hx m
     | s0 :: s1 :: rest, hs =>
       simp only [Pt.res, Res.has]
-      exact foldl_union_has (.inr ⟨s, hs, hsound x m.forMerge⟩)
+      exact foldl_union_has (.inr ⟨s, hs, hsound x hx m.forMerge⟩)
 
 theorem res_noUnk {p : Pt} (h : WfPt p) (x : Nat) : NoUnkRes (p.res x .ignore) := by
   cases p with
@@ -76,7 +93,7 @@ theorem res_noUnk {p : Pt} (h : WfPt p) (x : Nat) : NoUnkRes (p.res x .ignore) :
       simp only [Pt.res, NoUnkRes, Res.intoType, Mode.forMerge]
       exact foldl_union_noUnk (by simp) (fun s hs => h s hs x)
 
-theorem sound_ins {ρ : Env} {p : Pt} (h : SoundPt ρ p) : ∃ s ∈ p.ins, SoundSt ρ s := by
+theorem sound_ins {ρ : Env} {p : Pt} (h : SoundPt W ρ p) : ∃ s ∈ p.ins, SoundSt W ρ s := by
   cases p with
   | node s => exact ⟨s, by simp [Pt.ins], h⟩
   | label ins => exact h
@@ -86,8 +103,8 @@ theorem wf_ins {p : Pt} (h : WfPt p) : ∀ s ∈ p.ins, WfSt s := by
   | node s => intro s' hs'; simp only [Pt.ins, List.mem_cons, List.not_mem_nil, or_false] at hs'; subst hs'; exact h
   | label ins => exact h
 
-theorem finishLabel_sound {ρ : Env} {ants : List Pt} {d : Pt} (h : ∃ p ∈ ants, SoundPt ρ p) :
-    SoundPt ρ (finishLabel ants d) := by
+theorem finishLabel_sound {ρ : Env} {ants : List Pt} {d : Pt} (h : ∃ p ∈ ants, SoundPt W ρ p) :
+    SoundPt W ρ (finishLabel ants d) := by
   obtain ⟨p, hp, hs⟩ := h
   match ants, hp with
   | [p0], hp =>
@@ -121,11 +138,12 @@ theorem env_get_ge {ρ : Env} {x : Nat} (h : ρ.length ≤ x) : ρ.get x = .nil 
   simp [Env.get, List.getD, List.getElem?_eq_none h]
 
 theorem soundSt_mk {ρ : Env} {nv : Nat} {f : Nat → Res3} (hlen : ρ.length = nv)
-    (h : ∀ x, x < nv → ∀ m, ((f x).get m).has (ρ.get x) = true) : SoundSt ρ ((List.range nv).map f) := by
-  intro x m
+    (h : ∀ x, W x = false → x < nv → ∀ m, ((f x).get m).has (ρ.get x) = true) :
+    SoundSt W ρ ((List.range nv).map f) := by
+  intro x hw m
   rw [get_mk]
   split
-  · rename_i hx; exact h x hx m
+  · rename_i hx; exact h x hw hx m
   · rename_i hx
     rw [env_get_ge (by omega)]
     simp [Res.has, Ty.has, Atom.has]
@@ -142,24 +160,19 @@ theorem res3_get_mk (a b c : Res) (m : Mode) :
     (Res3.mk a b c).get m = match m with | .normal => a | .merge => b | .ignore => c := by
   cases m <;> rfl
 
-theorem passNode_sound {ρ : Env} {nv : Nat} {ant : Pt} (hlen : ρ.length = nv) (h : SoundPt ρ ant) :
-    SoundSt ρ (passNode nv ant) := by
+theorem passNode_sound {ρ : Env} {nv : Nat} {ant : Pt} (hlen : ρ.length = nv) (h : SoundPt W ρ ant) :
+    SoundSt W ρ (passNode nv ant) := by
   apply soundSt_mk hlen
-  intro x _ m
-  cases m <;> exact res_has h x _
+  intro x hx _ m
+  cases m <;> exact res_has h x hx _
 
 theorem passNode_wf {nv : Nat} {ant : Pt} (h : WfPt ant) : WfSt (passNode nv ant) := by
   apply wfSt_mk
   intro x _
   exact res_noUnk h x
 
-/-- evaluation of a leaf condition -/
-def Leaf.eval (ρ : Env) : Leaf → Bool
-  | .truthy x => (ρ.get x).truthy
-  | .typeIs x t neg => ((ρ.get x).typeName == t) != neg
-  | .isNil x neg => ((ρ.get x) == .nil) != neg
-
 theorem action_sound {ρ : Env} {l : Leaf} {flow : Bool} {x : Nat} {nr : Narrow} {t : Ty}
+    (hst : StoredOK S ρ) (hin : l.storedIn S = true)
     (ha : l.action flow x = some nr) (he : l.eval ρ = flow) (h : t.has (ρ.get x) = true) :
     (nr.apply t).has (ρ.get x) = true := by
   cases l with
@@ -194,6 +207,29 @@ theorem action_sound {ρ : Env} {l : Leaf} {flow : Bool} {x : Nat} {nr : Narrow}
         apply guardTrue_sound _ h
         cases flow <;> cases neg <;> simp_all
     · simp at ha
+  | stored y tn0 g neg =>
+    simp only [Leaf.action] at ha
+    split at ha
+    · rename_i hxy
+      have : x = y := by simpa using hxy
+      subst this
+      simp only [Option.some.injEq] at ha
+      subst ha
+      simp only [Leaf.eval] at he
+      have htn : (ρ.get x).typeName = tn0 := by
+        simp only [Leaf.storedIn, List.contains_eq_mem, decide_eq_true_eq] at hin
+        exact hst (x, tn0) hin
+      cases hfn : (flow != neg)
+      · simp only [Narrow.apply]
+        apply guardFalse_sound _ h
+        intro heq
+        rw [htn] at heq
+        cases flow <;> cases neg <;> simp_all
+      · simp only [Narrow.apply]
+        apply guardTrue_sound _ h
+        rw [htn]
+        cases flow <;> cases neg <;> simp_all
+    · simp at ha
   | isNil y neg =>
     simp only [Leaf.action] at ha
     split at ha
@@ -204,8 +240,22 @@ theorem action_sound {ρ : Env} {l : Leaf} {flow : Bool} {x : Nat} {nr : Narrow}
       subst ha
       simp only [Leaf.eval] at he
       simp only [Narrow.apply]
-      apply eqNil_sound _ h
+      apply eqLit_sound (l := .nil) (by intro i; simp) _ h
+      simp only [Lit.val]
       cases flow <;> cases neg <;> cases hv : (ρ.get x == Val.nil) <;> simp_all
+    · simp at ha
+  | eqLit y l neg =>
+    simp only [Leaf.action] at ha
+    split at ha
+    · rename_i hxy
+      have : x = y := by simpa using hxy
+      subst this
+      simp only [Option.some.injEq] at ha
+      subst ha
+      simp only [Leaf.eval] at he
+      simp only [Narrow.apply]
+      apply eqLit_sound (l := l.lit) (by intro i; cases l <;> simp [CLit.lit]) _ h
+      cases flow <;> cases neg <;> cases hv : (ρ.get x == l.lit.val) <;> simp_all
     · simp at ha
 
 theorem narrowRes_has {nr : Narrow} {m : Mode} {r : Res} {v : Val}
@@ -228,19 +278,20 @@ theorem narrowRes_has {nr : Narrow} {m : Mode} {r : Res} {v : Val}
       · simpa [Res.has] using h'
 
 theorem condNode_sound {ρ : Env} {nv : Nat} {l : Leaf} {flow : Bool} {ant : Pt} (hlen : ρ.length = nv)
-    (he : l.eval ρ = flow) (h : SoundPt ρ ant) : SoundSt ρ (condNode nv l flow ant) := by
+    (hst : StoredOK S ρ) (hin : l.storedIn S = true)
+    (he : l.eval ρ = flow) (h : SoundPt W ρ ant) : SoundSt W ρ (condNode nv l flow ant) := by
   apply soundSt_mk hlen
-  intro x _ m
+  intro x hx _ m
   cases ha : l.action flow x with
-  | none => simp only []; cases m <;> exact res_has h x _
+  | none => simp only []; cases m <;> exact res_has h x hx _
   | some nr =>
     simp only []
     have hap : ∀ t, t.has (ρ.get x) = true → (nr.apply t).has (ρ.get x) = true :=
-      fun t ht => action_sound ha he ht
+      fun t ht => action_sound hst hin ha he ht
     cases m
-    · exact narrowRes_has hap (res_has h x _)
-    · exact narrowRes_has hap (res_has h x _)
-    · exact res_has h x _
+    · exact narrowRes_has hap (res_has h x hx _)
+    · exact narrowRes_has hap (res_has h x hx _)
+    · exact res_has h x hx _
 
 theorem condNode_wf {nv : Nat} {l : Leaf} {flow : Bool} {ant : Pt} (h : WfPt ant) :
     WfSt (condNode nv l flow ant) := by
@@ -258,10 +309,10 @@ theorem env_get_set {ρ : Env} {y x : Nat} {v : Val} :
     simp [hxy, this]
 
 theorem assignRes_has {d : Atom} {l : Lit} {ant : Pt} {x : Nat} {m : Mode} {ρ : Env}
-    (hw : WfPt ant) (h : SoundPt ρ ant) : (assignRes d l.ty ant x m).has l.val = true := by
+    (hw : WfPt ant) (h : SoundPt W ρ ant) (hx : W x = false) : (assignRes d l.ty ant x m).has l.val = true := by
   unfold assignRes
-  have h1 := res_has h x m.forAssign
-  have h2 := res_has h x .ignore
+  have h1 := res_has h x hx m.forAssign
+  have h2 := res_has h x hx .ignore
   have h3 := res_noUnk hw x
   cases he : ant.res x m.forAssign with
   | unreach => rw [he] at h1; simp [Res.has] at h1
@@ -296,18 +347,29 @@ theorem assignRes_noUnk {d : Atom} {l : Lit} {ant : Pt} {x : Nat} {m : Mode} :
         exact assignResult_noUnk
 
 theorem assignNode_sound {ρ : Env} {nv : Nat} {d : Nat → Atom} {y : Nat} {l : Lit} {ant : Pt}
-    (hlen : ρ.length = nv) (hw : WfPt ant) (h : SoundPt ρ ant) :
-    SoundSt (ρ.set y l.val) (assignNode nv d y l.ty ant) := by
+    (hlen : ρ.length = nv) (hw : WfPt ant) (h : SoundPt W ρ ant) :
+    SoundSt W (ρ.set y l.val) (assignNode nv d y l.ty ant) := by
   apply soundSt_mk (by simpa using hlen)
-  intro x hx m
+  intro x hwx hx m
   rw [env_get_set]
   by_cases hxy : x = y
   · subst hxy
     simp only [beq_self_eq_true, ↓reduceIte, true_and, hlen, hx]
-    cases m <;> simp only [Res3.get] <;> exact assignRes_has hw h
+    cases m <;> simp only [Res3.get] <;> exact assignRes_has hw h hwx
   · have : (x == y) = false := by simpa using hxy
     simp only [this, Bool.false_eq_true, ↓reduceIte, hxy, false_and]
-    cases m <;> simp only [Res3.get] <;> exact res_has h x _
+    cases m <;> simp only [Res3.get] <;> exact res_has h x hwx _
+
+theorem storedOK_set {ρ : Env} {y : Nat} {v : Val} (hst : StoredOK S ρ) (hy : S.any (fun p => p.1 == y) = false) :
+    StoredOK S (ρ.set y v) := by
+  intro p hp
+  rw [env_get_set]
+  have : ¬ p.1 = y := by
+    intro he
+    have : S.any (fun p => p.1 == y) = true := List.any_eq_true.mpr ⟨p, hp, by simp [he]⟩
+    rw [hy] at this; cases this
+  simp only [this, false_and, ↓reduceIte]
+  exact hst p hp
 
 theorem assignNode_wf {nv : Nat} {d : Nat → Atom} {y : Nat} {l : Lit} {ant : Pt} (hw : WfPt ant) :
     WfSt (assignNode nv d y l.ty ant) := by
@@ -324,10 +386,11 @@ theorem assignNode_wf {nv : Nat} {d : Nat → Atom} {y : Nat} {l : Lit} {ant : P
 /-! ### conditions -/
 
 theorem leaf_eval {ρ : Env} : ∀ {c : Cond} {l : Leaf} {inv : Bool}, c.leaf? = some (l, inv) →
-    c.eval ρ = (l.eval ρ != inv)
-  | .truthy x, l, inv, h => by simp only [Cond.leaf?, Option.some.injEq, Prod.mk.injEq] at h; obtain ⟨rfl, rfl⟩ := h; simp [Cond.eval, Leaf.eval]
-  | .typeIs x t neg, l, inv, h => by simp only [Cond.leaf?, Option.some.injEq, Prod.mk.injEq] at h; obtain ⟨rfl, rfl⟩ := h; simp [Cond.eval, Leaf.eval]
-  | .isNil x neg, l, inv, h => by simp only [Cond.leaf?, Option.some.injEq, Prod.mk.injEq] at h; obtain ⟨rfl, rfl⟩ := h; simp [Cond.eval, Leaf.eval]
+    c.eval ρ = (l.eval ρ != inv) ∧ (c.storedIn S = true → l.storedIn S = true)
+  | .leaf l0, l, inv, h => by
+    simp only [Cond.leaf?, Option.some.injEq, Prod.mk.injEq] at h
+    obtain ⟨rfl, rfl⟩ := h
+    simp [Cond.eval, Cond.storedIn]
   | .not c, l, inv, h => by
     simp only [Cond.leaf?] at h
     cases hc : c.leaf? with
@@ -336,20 +399,16 @@ theorem leaf_eval {ρ : Env} : ∀ {c : Cond} {l : Leaf} {inv : Bool}, c.leaf? =
       obtain ⟨l', inv'⟩ := p
       simp only [hc, Option.map_some, Option.some.injEq, Prod.mk.injEq] at h
       obtain ⟨rfl, rfl⟩ := h
-      simp only [Cond.eval, leaf_eval hc]
+      have ih := leaf_eval (ρ := ρ) hc
+      refine ⟨?_, fun hs => ih.2 (by simpa [Cond.storedIn] using hs)⟩
+      simp only [Cond.eval, ih.1]
       cases l'.eval ρ <;> cases inv' <;> rfl
   | .and _ _, _, _, h => by simp [Cond.leaf?] at h
   | .or _ _, _, _, h => by simp [Cond.leaf?] at h
 
 theorem edges_wf (nv : Nat) : ∀ (c : Cond) (cur : Pt), WfPt cur →
     (∀ p ∈ (c.edges nv cur).1, WfPt p) ∧ (∀ p ∈ (c.edges nv cur).2, WfPt p)
-  | .truthy x, cur, h => by
-    simp only [Cond.edges, List.mem_cons, List.not_mem_nil, or_false, forall_eq]
-    exact ⟨condNode_wf h, condNode_wf h⟩
-  | .typeIs x t neg, cur, h => by
-    simp only [Cond.edges, List.mem_cons, List.not_mem_nil, or_false, forall_eq]
-    exact ⟨condNode_wf h, condNode_wf h⟩
-  | .isNil x neg, cur, h => by
+  | .leaf l, cur, h => by
     simp only [Cond.edges, List.mem_cons, List.not_mem_nil, or_false, forall_eq]
     exact ⟨condNode_wf h, condNode_wf h⟩
   | .not c, cur, h => by
@@ -379,47 +438,47 @@ theorem edges_wf (nv : Nat) : ∀ (c : Cond) (cur : Pt), WfPt cur →
     · exact ihb.1 p hp
 
 theorem leaf_edge_sound {ρ : Env} {nv : Nat} {l : Leaf} {flow : Bool} {cur : Pt} (hl : ρ.length = nv)
-    (he : l.eval ρ = flow) (h : SoundPt ρ cur) : ∃ p ∈ [Pt.node (condNode nv l flow cur)], SoundPt ρ p :=
-  ⟨Pt.node (condNode nv l flow cur), by simp, condNode_sound hl he h⟩
+    (hst : StoredOK S ρ) (hin : l.storedIn S = true)
+    (he : l.eval ρ = flow) (h : SoundPt W ρ cur) : ∃ p ∈ [Pt.node (condNode nv l flow cur)], SoundPt W ρ p :=
+  ⟨Pt.node (condNode nv l flow cur), by simp, condNode_sound hl hst hin he h⟩
 
-theorem edges_sound (nv : Nat) : ∀ (c : Cond) (cur : Pt) (ρ : Env), ρ.length = nv → SoundPt ρ cur →
-    (c.eval ρ = true → ∃ p ∈ (c.edges nv cur).1, SoundPt ρ p) ∧
-    (c.eval ρ = false → ∃ p ∈ (c.edges nv cur).2, SoundPt ρ p)
-  | .truthy x, cur, ρ, hl, h => by
+theorem edges_sound (nv : Nat) : ∀ (c : Cond) (cur : Pt) (ρ : Env), ρ.length = nv → StoredOK S ρ →
+    c.storedIn S = true → SoundPt W ρ cur →
+    (c.eval ρ = true → ∃ p ∈ (c.edges nv cur).1, SoundPt W ρ p) ∧
+    (c.eval ρ = false → ∃ p ∈ (c.edges nv cur).2, SoundPt W ρ p)
+  | .leaf l, cur, ρ, hl, hst, hin, h => by
     simp only [Cond.edges, Cond.eval]
-    exact ⟨fun he => leaf_edge_sound (l := .truthy x) hl he h, fun he => leaf_edge_sound (l := .truthy x) hl he h⟩
-  | .typeIs x t neg, cur, ρ, hl, h => by
-    simp only [Cond.edges, Cond.eval]
-    exact ⟨fun he => leaf_edge_sound (l := .typeIs x t neg) hl he h, fun he => leaf_edge_sound (l := .typeIs x t neg) hl he h⟩
-  | .isNil x neg, cur, ρ, hl, h => by
-    simp only [Cond.edges, Cond.eval]
-    exact ⟨fun he => leaf_edge_sound (l := .isNil x neg) hl he h, fun he => leaf_edge_sound (l := .isNil x neg) hl he h⟩
-  | .not c, cur, ρ, hl, h => by
+    simp only [Cond.storedIn] at hin
+    exact ⟨fun he => leaf_edge_sound hl hst hin he h, fun he => leaf_edge_sound hl hst hin he h⟩
+  | .not c, cur, ρ, hl, hst, hin, h => by
+    simp only [Cond.storedIn] at hin
     simp only [Cond.edges]
     split
     · rename_i l inv hc
-      have hev := leaf_eval (ρ := ρ) hc
-      simp only [Cond.eval, hev]
+      have hev := leaf_eval (S := S) (ρ := ρ) hc
+      have hli := hev.2 hin
+      simp only [Cond.eval, hev.1]
       constructor
       · intro he
-        refine leaf_edge_sound (l := l) (flow := inv) hl ?_ h
+        refine leaf_edge_sound (l := l) (flow := inv) hl hst hli ?_ h
         cases hle : l.eval ρ <;> cases inv <;> simp_all
       · intro he
-        refine leaf_edge_sound (l := l) (flow := !inv) hl ?_ h
+        refine leaf_edge_sound (l := l) (flow := !inv) hl hst hli ?_ h
         cases hle : l.eval ρ <;> cases inv <;> simp_all
-    · have ih := edges_sound nv c cur ρ hl h
+    · have ih := edges_sound nv c cur ρ hl hst hin h
       simp only [Cond.eval]
       constructor
       · intro he; exact ih.2 (by simpa using he)
       · intro he; exact ih.1 (by simpa using he)
-  | .and a b, cur, ρ, hl, h => by
+  | .and a b, cur, ρ, hl, hst, hin, h => by
+    simp only [Cond.storedIn, Bool.and_eq_true] at hin
     simp only [Cond.edges, Cond.eval]
-    have iha := edges_sound nv a cur ρ hl h
+    have iha := edges_sound nv a cur ρ hl hst hin.1 h
     constructor
     · intro he
       simp only [Bool.and_eq_true] at he
       have hcur' := finishLabel_sound (d := cur) (iha.1 he.1)
-      obtain ⟨p, hp, hs⟩ := (edges_sound nv b _ ρ hl hcur').1 he.2
+      obtain ⟨p, hp, hs⟩ := (edges_sound nv b _ ρ hl hst hin.2 hcur').1 he.2
       exact ⟨p, hp, hs⟩
     · intro he
       cases ha : a.eval ρ
@@ -427,46 +486,71 @@ theorem edges_sound (nv : Nat) : ∀ (c : Cond) (cur : Pt) (ρ : Env), ρ.length
         exact ⟨p, List.mem_append.mpr (.inl hp), hs⟩
       · have hb : b.eval ρ = false := by simpa [ha] using he
         have hcur' := finishLabel_sound (d := cur) (iha.1 ha)
-        obtain ⟨p, hp, hs⟩ := (edges_sound nv b _ ρ hl hcur').2 hb
+        obtain ⟨p, hp, hs⟩ := (edges_sound nv b _ ρ hl hst hin.2 hcur').2 hb
         exact ⟨p, List.mem_append.mpr (.inr hp), hs⟩
-  | .or a b, cur, ρ, hl, h => by
+  | .or a b, cur, ρ, hl, hst, hin, h => by
+    simp only [Cond.storedIn, Bool.and_eq_true] at hin
     simp only [Cond.edges, Cond.eval]
-    have iha := edges_sound nv a cur ρ hl h
+    have iha := edges_sound nv a cur ρ hl hst hin.1 h
     constructor
     · intro he
       cases ha : a.eval ρ
       · have hb : b.eval ρ = true := by simpa [ha] using he
         have hcur' := finishLabel_sound (d := cur) (iha.2 ha)
-        obtain ⟨p, hp, hs⟩ := (edges_sound nv b _ ρ hl hcur').1 hb
+        obtain ⟨p, hp, hs⟩ := (edges_sound nv b _ ρ hl hst hin.2 hcur').1 hb
         exact ⟨p, List.mem_append.mpr (.inr hp), hs⟩
       · obtain ⟨p, hp, hs⟩ := iha.1 ha
         exact ⟨p, List.mem_append.mpr (.inl hp), hs⟩
     · intro he
       simp only [Bool.or_eq_false_iff] at he
       have hcur' := finishLabel_sound (d := cur) (iha.2 he.1)
-      obtain ⟨p, hp, hs⟩ := (edges_sound nv b _ ρ hl hcur').2 he.2
+      obtain ⟨p, hp, hs⟩ := (edges_sound nv b _ ρ hl hst hin.2 hcur').2 he.2
       exact ⟨p, hp, hs⟩
 
 /-! ### statements -/
 
-/-- every concrete observation has an abstract observation at the same probe whose type contains the value -/
-def ObsOK (os : List Obs) (as : List AObs) : Prop :=
-  ∀ o ∈ os, ∃ t, (o.1, o.2.1, t) ∈ as ∧ t.has o.2.2 = true
+/-- every concrete observation of a variable outside `W` has an abstract observation at the same probe whose type
+contains the value -/
+def ObsOK (W : Nat → Bool) (os : List Obs) (as : List AObs) : Prop :=
+  ∀ o ∈ os, W o.2.1 = false → ∃ t, (o.1, o.2.1, t) ∈ as ∧ t.has o.2.2 = true
 
-theorem ObsOK.nil {as : List AObs} : ObsOK [] as := by intro o ho; simp at ho
+theorem ObsOK.nil {as : List AObs} : ObsOK W [] as := by intro o ho; simp at ho
 
-theorem ObsOK.append {o1 o2 : List Obs} {a1 a2 : List AObs} (h1 : ObsOK o1 a1) (h2 : ObsOK o2 a2) :
-    ObsOK (o1 ++ o2) (a1 ++ a2) := by
-  intro o ho
+theorem ObsOK.append {o1 o2 : List Obs} {a1 a2 : List AObs} (h1 : ObsOK W o1 a1) (h2 : ObsOK W o2 a2) :
+    ObsOK W (o1 ++ o2) (a1 ++ a2) := by
+  intro o ho hw
   rcases List.mem_append.mp ho with ho | ho
-  · obtain ⟨t, ht, hv⟩ := h1 o ho; exact ⟨t, List.mem_append.mpr (.inl ht), hv⟩
-  · obtain ⟨t, ht, hv⟩ := h2 o ho; exact ⟨t, List.mem_append.mpr (.inr ht), hv⟩
+  · obtain ⟨t, ht, hv⟩ := h1 o ho hw; exact ⟨t, List.mem_append.mpr (.inl ht), hv⟩
+  · obtain ⟨t, ht, hv⟩ := h2 o ho hw; exact ⟨t, List.mem_append.mpr (.inr ht), hv⟩
 
-theorem ObsOK.left {o : List Obs} {a1 a2 : List AObs} (h : ObsOK o a1) : ObsOK o (a1 ++ a2) := by
-  intro x hx; obtain ⟨t, ht, hv⟩ := h x hx; exact ⟨t, List.mem_append.mpr (.inl ht), hv⟩
+theorem ObsOK.left {o : List Obs} {a1 a2 : List AObs} (h : ObsOK W o a1) : ObsOK W o (a1 ++ a2) := by
+  intro x hx hw; obtain ⟨t, ht, hv⟩ := h x hx hw; exact ⟨t, List.mem_append.mpr (.inl ht), hv⟩
 
-theorem ObsOK.right {o : List Obs} {a1 a2 : List AObs} (h : ObsOK o a2) : ObsOK o (a1 ++ a2) := by
-  intro x hx; obtain ⟨t, ht, hv⟩ := h x hx; exact ⟨t, List.mem_append.mpr (.inr ht), hv⟩
+theorem ObsOK.right {o : List Obs} {a1 a2 : List AObs} (h : ObsOK W o a2) : ObsOK W o (a1 ++ a2) := by
+  intro x hx hw; obtain ⟨t, ht, hv⟩ := h x hx hw; exact ⟨t, List.mem_append.mpr (.inr ht), hv⟩
+
+theorem probe_obs {ρ : Env} {cur : Pt} {id x : Nat} (h : SoundPt W ρ cur) :
+    ObsOK W [(id, x, ρ.get x)] [(id, x, cur.typeOf x)] := by
+  intro o ho hw
+  simp only [List.mem_cons, List.not_mem_nil, or_false] at ho
+  subst ho
+  exact ⟨cur.typeOf x, by simp, Res.has_intoType (res_has h x hw .normal)⟩
+
+mutual
+/-- syntactic side condition for stored-type guards: every `t_x == "T"` guard is listed in `S`, and no variable
+listed in `S` is assigned -/
+def Stmt.ok (S : List (Nat × TName)) : Stmt → Bool
+  | .assign x _ => !(S.any fun p => p.1 == x)
+  | .probe _ _ => true
+  | .ite c thn rest => c.storedIn S && thn.ok S && rest.ok S
+def Else.ok (S : List (Nat × TName)) : Else → Bool
+  | .none => true
+  | .els b => b.ok S
+  | .elif c thn rest => c.storedIn S && thn.ok S && rest.ok S
+def Block.ok (S : List (Nat × TName)) : Block → Bool
+  | .nil => true
+  | .cons s rest => s.ok S && rest.ok S
+end
 
 mutual
 theorem Stmt.aexec_wf (nv : Nat) (d : Nat → Atom) : ∀ (s : Stmt) (cur : Pt), WfPt cur → WfPt (s.aexec nv d cur).1
@@ -511,66 +595,75 @@ end
 
 mutual
 theorem Stmt.aexec_sound (nv : Nat) (d : Nat → Atom) : ∀ (s : Stmt) (cur : Pt) (ρ : Env), ρ.length = nv →
-    WfPt cur → SoundPt ρ cur →
-    SoundPt (s.exec ρ).1 (s.aexec nv d cur).1 ∧ (s.exec ρ).1.length = nv ∧ ObsOK (s.exec ρ).2 (s.aexec nv d cur).2
-  | .assign x l, cur, ρ, hl, hw, h => by
+    StoredOK S ρ → s.ok S = true → WfPt cur → SoundPt W ρ cur →
+    SoundPt W (s.exec ρ).1 (s.aexec nv d cur).1 ∧ (s.exec ρ).1.length = nv ∧ StoredOK S (s.exec ρ).1 ∧
+      ObsOK W (s.exec ρ).2 (s.aexec nv d cur).2
+  | .assign x l, cur, ρ, hl, hst, hok, hw, h => by
     simp only [Stmt.aexec, Stmt.exec]
-    exact ⟨assignNode_sound hl hw h, by simpa using hl, ObsOK.nil⟩
-  | .probe id x, cur, ρ, hl, hw, h => by
+    simp only [Stmt.ok, Bool.not_eq_eq_eq_not, Bool.not_true] at hok
+    exact ⟨assignNode_sound hl hw h, by simpa using hl, storedOK_set hst hok, ObsOK.nil⟩
+  | .probe id x, cur, ρ, hl, hst, hok, hw, h => by
     simp only [Stmt.aexec, Stmt.exec]
-    refine ⟨passNode_sound hl h, hl, ?_⟩
-    intro o ho
-    simp only [List.mem_cons, List.not_mem_nil, or_false] at ho
-    subst ho
-    exact ⟨cur.typeOf x, by simp, Res.has_intoType (res_has h x .normal)⟩
-  | .ite c thn rest, cur, ρ, hl, hw, h => by
+    exact ⟨passNode_sound hl h, hl, hst, probe_obs h⟩
+  | .ite c thn rest, cur, ρ, hl, hst, hok, hw, h => by
+    simp only [Stmt.ok, Bool.and_eq_true] at hok
     simp only [Stmt.aexec, Stmt.exec]
     have hew := edges_wf nv c cur hw
-    have hes := edges_sound nv c cur ρ hl h
+    have hes := edges_sound (W := W) nv c cur ρ hl hst hok.1.1 h
     cases hc : c.eval ρ
     · simp only [Bool.false_eq_true, ↓reduceIte]
-      obtain ⟨⟨p, hp, hs⟩, hlen, hobs⟩ := Else.aexec_sound nv d rest cur _ ρ hl hw hew.2 (hes.2 hc)
-      exact ⟨finishLabel_sound ⟨p, by simp [hp], hs⟩, hlen, hobs.right⟩
+      obtain ⟨⟨p, hp, hs⟩, hlen, hst', hobs⟩ :=
+        Else.aexec_sound nv d rest cur _ ρ hl hst hok.2 hw hew.2 (hes.2 hc)
+      exact ⟨finishLabel_sound ⟨p, by simp [hp], hs⟩, hlen, hst', hobs.right⟩
     · simp only [↓reduceIte]
-      obtain ⟨hs, hlen, hobs⟩ :=
-        Block.aexec_sound nv d thn _ ρ hl (finishLabel_wf hew.1 hw) (finishLabel_sound (d := cur) (hes.1 hc))
-      exact ⟨finishLabel_sound ⟨_, by simp, hs⟩, hlen, hobs.left⟩
+      obtain ⟨hs, hlen, hst', hobs⟩ :=
+        Block.aexec_sound nv d thn _ ρ hl hst hok.1.2 (finishLabel_wf hew.1 hw)
+          (finishLabel_sound (d := cur) (hes.1 hc))
+      exact ⟨finishLabel_sound ⟨_, by simp, hs⟩, hlen, hst', hobs.left⟩
 theorem Else.aexec_sound (nv : Nat) (d : Nat → Atom) : ∀ (e : Else) (cur : Pt) (ins : List Pt) (ρ : Env),
-    ρ.length = nv → WfPt cur → (∀ p ∈ ins, WfPt p) → (∃ p ∈ ins, SoundPt ρ p) →
-    (∃ p ∈ (e.aexec nv d cur ins).1, SoundPt (e.exec ρ).1 p) ∧ (e.exec ρ).1.length = nv ∧
-      ObsOK (e.exec ρ).2 (e.aexec nv d cur ins).2
-  | .none, cur, ins, ρ, hl, hw, hwi, h => by
+    ρ.length = nv → StoredOK S ρ → e.ok S = true → WfPt cur → (∀ p ∈ ins, WfPt p) →
+    (∃ p ∈ ins, SoundPt W ρ p) →
+    (∃ p ∈ (e.aexec nv d cur ins).1, SoundPt W (e.exec ρ).1 p) ∧ (e.exec ρ).1.length = nv ∧
+      StoredOK S (e.exec ρ).1 ∧ ObsOK W (e.exec ρ).2 (e.aexec nv d cur ins).2
+  | .none, cur, ins, ρ, hl, hst, hok, hw, hwi, h => by
     simp only [Else.aexec, Else.exec]
-    exact ⟨⟨finishLabel ins cur, by simp, finishLabel_sound h⟩, hl, ObsOK.nil⟩
-  | .els b, cur, ins, ρ, hl, hw, hwi, h => by
+    exact ⟨⟨finishLabel ins cur, by simp, finishLabel_sound h⟩, hl, hst, ObsOK.nil⟩
+  | .els b, cur, ins, ρ, hl, hst, hok, hw, hwi, h => by
     simp only [Else.aexec, Else.exec]
-    obtain ⟨hs, hlen, hobs⟩ := Block.aexec_sound nv d b _ ρ hl (finishLabel_wf hwi hw) (finishLabel_sound (d := cur) h)
-    exact ⟨⟨_, by simp, hs⟩, hlen, hobs⟩
-  | .elif c thn rest, cur, ins, ρ, hl, hw, hwi, h => by
+    obtain ⟨hs, hlen, hst', hobs⟩ := Block.aexec_sound nv d b _ ρ hl hst (by simpa [Else.ok] using hok)
+      (finishLabel_wf hwi hw) (finishLabel_sound (d := cur) h)
+    exact ⟨⟨_, by simp, hs⟩, hlen, hst', hobs⟩
+  | .elif c thn rest, cur, ins, ρ, hl, hst, hok, hw, hwi, h => by
+    simp only [Else.ok, Bool.and_eq_true] at hok
     simp only [Else.aexec, Else.exec]
     have hpw := finishLabel_wf hwi hw
     have hps := finishLabel_sound (d := cur) h
     have hew := edges_wf nv c _ hpw
-    have hes := edges_sound nv c _ ρ hl hps
+    have hes := edges_sound (W := W) nv c _ ρ hl hst hok.1.1 hps
     cases hc : c.eval ρ
     · simp only [Bool.false_eq_true, ↓reduceIte]
-      obtain ⟨⟨p, hp, hs⟩, hlen, hobs⟩ := Else.aexec_sound nv d rest cur _ ρ hl hw hew.2 (hes.2 hc)
-      exact ⟨⟨p, by simp [hp], hs⟩, hlen, hobs.right⟩
+      obtain ⟨⟨p, hp, hs⟩, hlen, hst', hobs⟩ :=
+        Else.aexec_sound nv d rest cur _ ρ hl hst hok.2 hw hew.2 (hes.2 hc)
+      exact ⟨⟨p, by simp [hp], hs⟩, hlen, hst', hobs.right⟩
     · simp only [↓reduceIte]
-      obtain ⟨hs, hlen, hobs⟩ :=
-        Block.aexec_sound nv d thn _ ρ hl (finishLabel_wf hew.1 hw) (finishLabel_sound (d := cur) (hes.1 hc))
-      exact ⟨⟨_, by simp, hs⟩, hlen, hobs.left⟩
+      obtain ⟨hs, hlen, hst', hobs⟩ :=
+        Block.aexec_sound nv d thn _ ρ hl hst hok.1.2 (finishLabel_wf hew.1 hw)
+          (finishLabel_sound (d := cur) (hes.1 hc))
+      exact ⟨⟨_, by simp, hs⟩, hlen, hst', hobs.left⟩
 theorem Block.aexec_sound (nv : Nat) (d : Nat → Atom) : ∀ (b : Block) (cur : Pt) (ρ : Env), ρ.length = nv →
-    WfPt cur → SoundPt ρ cur →
-    SoundPt (b.exec ρ).1 (b.aexec nv d cur).1 ∧ (b.exec ρ).1.length = nv ∧ ObsOK (b.exec ρ).2 (b.aexec nv d cur).2
-  | .nil, cur, ρ, hl, hw, h => by
+    StoredOK S ρ → b.ok S = true → WfPt cur → SoundPt W ρ cur →
+    SoundPt W (b.exec ρ).1 (b.aexec nv d cur).1 ∧ (b.exec ρ).1.length = nv ∧ StoredOK S (b.exec ρ).1 ∧
+      ObsOK W (b.exec ρ).2 (b.aexec nv d cur).2
+  | .nil, cur, ρ, hl, hst, hok, hw, h => by
     simp only [Block.aexec, Block.exec]
-    exact ⟨h, hl, ObsOK.nil⟩
-  | .cons s rest, cur, ρ, hl, hw, h => by
+    exact ⟨h, hl, hst, ObsOK.nil⟩
+  | .cons s rest, cur, ρ, hl, hst, hok, hw, h => by
+    simp only [Block.ok, Bool.and_eq_true] at hok
     simp only [Block.aexec, Block.exec]
-    obtain ⟨hs1, hl1, ho1⟩ := Stmt.aexec_sound nv d s cur ρ hl hw h
-    obtain ⟨hs2, hl2, ho2⟩ := Block.aexec_sound nv d rest _ _ hl1 (Stmt.aexec_wf nv d s cur hw) hs1
-    exact ⟨hs2, hl2, ho1.append ho2⟩
+    obtain ⟨hs1, hl1, hst1, ho1⟩ := Stmt.aexec_sound nv d s cur ρ hl hst hok.1 hw h
+    obtain ⟨hs2, hl2, hst2, ho2⟩ :=
+      Block.aexec_sound nv d rest _ _ hl1 hst1 hok.2 (Stmt.aexec_wf nv d s cur hw) hs1
+    exact ⟨hs2, hl2, hst2, ho1.append ho2⟩
 end
 
 /-! ### programs -/
@@ -599,10 +692,10 @@ theorem declTy_ne_unknown (p : Prog) (x : Nat) : p.declTy x ≠ .unknown := by
   · rename_i l _
     split <;> cases l <;> simp [Lit.ty, widen]
 
-theorem initPt_sound (p : Prog) : SoundPt p.initEnv p.initPt := by
+theorem initPt_sound (p : Prog) : SoundPt W p.initEnv p.initPt := by
   unfold Prog.initPt
   apply soundSt_mk (by simp [Prog.initEnv])
-  intro x _ m
+  intro x _ _ m
   cases m <;> simpa [Res3.get, Res.has, has_single] using declTy_has p x
 
 theorem initPt_wf (p : Prog) : WfPt p.initPt := by
